@@ -101,6 +101,7 @@ impl Prop for C11 {
             kind_weights: [2, 3, 5, 0, 1],
             max_tags: 2,
             extreme_ids: false,
+            tag_values: 0,
         };
         history(w, cfg, tier.pick(35, 120)).prop_map(|ops| Case { ops }).boxed()
     }
